@@ -41,7 +41,9 @@ func refusingServer(hangUp bool) *script.Server {
 			resp = &kmip.ResponseMessage{Header: kmip.ResponseHeader{ProtocolVersion: rx.Msg.Header.ProtocolVersion, TimeStamp: time.Unix(1700000000, 0), BatchCount: 1},
 				BatchItem: []kmip.ResponseBatchItem{{Operation: kmip.OperationActivate, ResultStatus: kmip.ResultStatusOperationFailed, ResultReason: kmip.ResultReasonPermissionDenied, ResultMessage: serverMessage}}}
 		} else {
-			resp = script.OK(rx.Msg, func(int, *kmip.RequestBatchItem) kmip.OperationPayload { return &payloads.ActivateResponsePayload{UniqueIdentifier: id} })
+			resp = script.OK(rx.Msg, func(int, *kmip.RequestBatchItem) kmip.OperationPayload {
+				return &payloads.ActivateResponsePayload{UniqueIdentifier: id}
+			})
 		}
 		if hangUp {
 			conn.Write(ttlv.MarshalTTLV(resp))
@@ -313,5 +315,66 @@ func signerSignCase(c *core.Ctx, r *core.Rand, i int) {
 		sg.Sign(crand.Reader, digest, &rsa.PSSOptions{SaltLength: rsa.PSSSaltLengthEqualsHash, Hash: crypto.SHA256})
 	}); p {
 		c.Violation(core.PanicSig(pv, st), fmt.Sprintf("Signer / Sign panicked (%s): %v", label, pv), map[string]any{"stack": st})
+	}
+}
+
+// signerLinkedCase: Client.Signer given only one key of the pair; the other is found through the Link attribute, and
+// the server refuses the Get Attributes on that linked key (or on the given one). Whichever request is refused, the
+// error Signer returns carries the server's status, reason and message.
+func signerLinkedCase(c *core.Ctx, r *core.Rand, i int) {
+	given := []string{"pub", "priv"}[i%2]      // the key the caller names
+	refuse := []string{"pub", "priv"}[(i/2)%2] // the key whose attributes the server refuses
+	srv := script.NewServer(func(rx script.Received, _ *memnet.Conn) *kmip.ResponseMessage {
+		op := rx.Msg.BatchItem[0].Operation
+		if op == kmip.OperationGetAttributes {
+			id := rx.Msg.BatchItem[0].RequestPayload.(*payloads.GetAttributesRequestPayload).UniqueIdentifier
+			if id == refuse {
+				return &kmip.ResponseMessage{Header: kmip.ResponseHeader{ProtocolVersion: rx.Msg.Header.ProtocolVersion, TimeStamp: time.Unix(1700000000, 0), BatchCount: 1},
+					BatchItem: []kmip.ResponseBatchItem{{Operation: op, ResultStatus: kmip.ResultStatusOperationFailed, ResultReason: kmip.ResultReasonPermissionDenied, ResultMessage: serverMessage}}}
+			}
+			ot, lt, other := kmip.ObjectTypePrivateKey, kmip.LinkTypePublicKeyLink, "pub"
+			if id == "pub" {
+				ot, lt, other = kmip.ObjectTypePublicKey, kmip.LinkTypePrivateKeyLink, "priv"
+			}
+			return script.OK(rx.Msg, func(int, *kmip.RequestBatchItem) kmip.OperationPayload {
+				return &payloads.GetAttributesResponsePayload{UniqueIdentifier: id, Attribute: []kmip.Attribute{
+					{AttributeName: kmip.AttributeNameObjectType, AttributeValue: ot},
+					{AttributeName: kmip.AttributeNameCryptographicAlgorithm, AttributeValue: kmip.CryptographicAlgorithmECDSA},
+					{AttributeName: kmip.AttributeNameLink, AttributeValue: kmip.Link{LinkType: lt, LinkedObjectIdentifier: other}},
+					{AttributeName: kmip.AttributeNameCryptographicUsageMask, AttributeValue: kmip.CryptographicUsageSign | kmip.CryptographicUsageVerify},
+				}}
+			})
+		}
+		return script.OK(rx.Msg, func(int, *kmip.RequestBatchItem) kmip.OperationPayload {
+			return &payloads.ActivateResponsePayload{UniqueIdentifier: "x"}
+		})
+	})
+	defer srv.Close()
+	cl, err := newClient(srv)
+	if err != nil {
+		panic(err)
+	}
+	defer cl.Close()
+	var serr error
+	if p, pv, st := core.Guard(func() {
+		if given == "pub" {
+			_, serr = cl.Signer(context.Background(), "", "pub")
+		} else {
+			_, serr = cl.Signer(context.Background(), "priv", "")
+		}
+	}); p {
+		c.Violation(core.PanicSig(pv, st), fmt.Sprintf("Signer panicked: %v", pv), map[string]any{"stack": st})
+		return
+	}
+	c.Count("signer_linked_key_refusals", 1)
+	c.Distinct(core.Hash64("signer-linked", given, refuse))
+	label := fmt.Sprintf("Signer given the %s key only, Get Attributes refused for %q", given, refuse)
+	if serr == nil {
+		c.Violation("C12:failed-item-without-error:Signer-linked", label+": Signer returns no error", nil)
+		return
+	}
+	txt := serr.Error()
+	if !strings.Contains(txt, "OperationFailed") || !strings.Contains(txt, "PermissionDenied") || !strings.Contains(txt, serverMessage) {
+		c.Violation("C12:error-lacks-server-info:Signer-linked", fmt.Sprintf("%s: the error %q does not carry the server's status, reason and message", label, txt), nil)
 	}
 }
